@@ -37,3 +37,15 @@ CLAIMS["C12"] = (
     "Decides rules R12.1-R12.6. Not decided: resolver behaviour for other spellings of local names (trailing dot, IDNA), DNS answers pointing into private space (outside the statement), the net.IP predicates themselves." + COMMON_NOTE,
     "who-may-call + dominance/path cuts, constant propagation over go/ssa for a finite truth table, provenance slices",
     "3/C12")
+
+CLAIMS["C06"] = (
+    "Dominance, path-sensitive reachability and lock discipline around replay detection: the lookup of the encrypted metadata prefix precedes every decrypt of that buffer on both transports; under (server, first read, duplicate) no feasible path of the stream reader returns a segment and every error it returns is a REPLAY_ERROR; on UDP no segment is returned before the next datagram; the failure branches call nothing that may write; both caches have positive capacity and a retention not shorter than the timestamp acceptance window; the cache's mutable or reference-typed state is only touched under its mutex.",
+    "Decides rules R06.1-R06.6. Not decided: retention / false-positive behaviour of the two-generation cache over operation histories (64-bit FNV collisions, rotation by size and time are value-level), timing." + COMMON_NOTE,
+    "dominance, path-sensitive CFG exploration with branch facts and phi resolution, constant folding of constructor arguments, must-hold lock check on go/ssa; VTA call graph for may-write sets",
+    "3/C06")
+
+CLAIMS["C10"] = (
+    "The process has no recover(), so every panic is fatal. Decided statically: errors that can reach the event loop's error-type panics are typed; the dynamic type of segment metadata is a function of the protocol byte and every unchecked assertion on it is reachable only for protocols of the asserted family (constant propagation over all 16 protocol numbers, through callers); only session/data segments are inserted into segment trees; a foreign user's segment never leads to a panic in Session.input; every explicit panic site in the network-facing packages is classified (constructor calls verified by folding their constant arguments); no arithmetic on a packet byte before it is widened.",
+    "Decides rules R10.1a-e and R10.4. Not decided: run-time panics without a panic statement other than the narrow-arithmetic pattern (nil dereferences, slice bounds in general, atomic.Value type mismatches), resource exhaustion, panics inside the standard library/protobuf. The panic table (R10.1e) is confirmed by reading; its reasons are listed in the evidence." + COMMON_NOTE,
+    "constant propagation over go/ssa (finite protocol domain), provenance slices of returned errors, panic-site inventory with a confirmed table, CFG reachability",
+    "3/C10")
